@@ -270,59 +270,178 @@ def narrow(R, P):
 
     def guard_txt(e):
         return [(f.show(f.d(c)).replace(" ", ""), pol) for c, pol, b in RU.guards(f, e, dom)]
-    g_int = guard_txt(uint[0])
-    eq_int = [t for t, pol in g_int if pol and "==" in t and "int_value" in t]
-    R.check(len(eq_int) == 1 and eq_int[0] in ("(value==(double)int_value)", "((double)int_value==value)"), "NARROW", "integer-iff-exact", where(f, uint[0]), "integer form exactly when value == (double)(int64_t)value",
-            "the exact-integer test is %s" % [t for t, p in g_int])
+    # the roles are taken from the code, not from its spelling: `value` is the double parameter, the truncated integer is the
+    # local initialised with (int64_t)value, the narrowed float the local initialised with (float)value, the widened-back
+    # double the expression (double)<narrowed>.  Temporaries are seen through (RU.resolve), operands may stand either way round.
+    vname = f.params[1]["n"]
+
+    def is_value(n):
+        n = RU.resolve(f, n)
+        return n is not None and n["k"] == "var" and n["n"] == vname
+
+    def cast_of_value(n, pred):
+        """n (through temporaries) is a conversion of `value` to a type satisfying pred"""
+        n0 = f.d(n)
+        for _ in range(6):
+            if n0 is None:
+                return False
+            if n0["k"] == "cast":
+                t = f.ty(n0)
+                if pred(t) and is_value(n0["a"][0]):
+                    return True
+                n0 = f.d(n0["a"][0])
+            elif n0["k"] == "var" and n0.get("sc") == "local":
+                init = None
+                for e in f.all_events():
+                    if e.kind == "decl":
+                        for v in e.node["vars"]:
+                            if v["n"] == n0["n"] and v.get("init") is not None:
+                                init = v["init"]
+                n0 = f.d(init) if init is not None else None
+            else:
+                return False
+        return False
+    is_i64 = lambda t: t.get("w") == 64 and t.get("sg", t.get("signed", True)) and not t.get("fp") and not t.get("ptr")
+    is_flt = lambda t: (t.get("c") or t.get("s") or "") == "float"
+    is_trunc = lambda n: cast_of_value(n, lambda t: "int" in (t.get("c") or t.get("s") or "") or (t.get("c") or t.get("s") or "") in ("long", "long long"))
+
+    def widened_back(n):
+        """(double)<narrowed float of value>"""
+        n0 = f.d(n)
+        for _ in range(4):
+            if n0 is None:
+                return False
+            if n0["k"] == "cast" and (f.ty(n0).get("c") or f.ty(n0).get("s")) == "double" and cast_of_value(n0["a"][0], is_flt):
+                return True
+            if n0["k"] == "var" and n0.get("sc") == "local":
+                init = [v["init"] for e in f.all_events() if e.kind == "decl" for v in e.node["vars"] if v["n"] == n0["n"] and v.get("init") is not None]
+                n0 = f.d(init[0]) if init else None
+            elif n0["k"] == "cast":
+                n0 = f.d(n0["a"][0])
+            else:
+                return False
+        return False
+
+    def guards_of(e):
+        return [(f.d(c_), pol) for c_, pol, b in RU.guards(f, e, dom)]
+
+    def eq_guard(e, other):
+        """exactly one positive guard `value == X` (either order) with other(X)"""
+        out = []
+        for n_, pol in guards_of(e):
+            if pol and n_ is not None and n_["k"] == "bin" and n_["op"] == "==":
+                a0, a1 = n_["a"]
+                if (is_value(a0) and other(a1)) or (is_value(a1) and other(a0)):
+                    out.append(n_)
+        return out
+    R.check(len(eq_guard(uint[0], lambda x: (f.ty(f.d(x)).get("c") or f.ty(f.d(x)).get("s")) == "double" and is_trunc(RU.uncast(f, x)) or is_trunc(x))) == 1, "NARROW", "integer-iff-exact", where(f, uint[0]),
+            "integer form exactly when value == (double)(int64_t)value", "the exact-integer test is %s" % [t for t, p in guard_txt(uint[0])])
+
+    def constval(n):
+        n = RU.uncast(f, n)
+        if n is None:
+            return None
+        v = f.is_const(n)
+        if v is not None:
+            return float(v)
+        if n["k"] == "float":
+            try:
+                return float(n["v"])
+            except (TypeError, ValueError):
+                return None
+        if n["k"] == "un" and n["op"] in ("-", "+"):
+            x = constval(n["a"][0])
+            return None if x is None else (-x if n["op"] == "-" else x)
+        return None
+
+    def range_guards(e):
+        """(op, constant as double) with `value` on the left, for the positive guards comparing value with a constant"""
+        out = []
+        for n_, pol in guards_of(e):
+            if not pol or n_ is None or n_["k"] != "bin" or n_["op"] not in ("<", "<=", ">", ">="):
+                continue
+            a0, a1 = n_["a"]
+            flip = {"<": ">", "<=": ">=", ">": "<", ">=": "<="}
+            if is_value(a0) and constval(a1) is not None:
+                out.append((n_["op"], constval(a1), f.show(n_)))
+            elif is_value(a1) and constval(a0) is not None:
+                out.append((flip[n_["op"]], constval(a0), f.show(n_)))
+        return out
     # the double -> int64 conversion is defined only for values strictly below 2^63 and at or above -2^63.  The bounds are
     # compared AS DOUBLES: (double)INT64_MAX rounds up to 2^63, so `value <= (double)INT64_MAX` admits 2^63 itself
     lo_ok = hi_ok = False
     hi_txt = lo_txt = None
-    for c_, pol, b in RU.guards(f, uint[0], dom):
-        n_ = f.d(c_)
-        if pol and n_ is not None and n_["k"] == "bin" and f.show(RU.uncast(f, n_["a"][0])) == "value":
-            k_ = f.is_const(RU.uncast(f, n_["a"][1]))
-            if k_ is None:
-                continue
-            kd = float(k_)  # the comparison is made in double
-            if n_["op"] in ("<", "<="):
-                hi_txt = f.show(n_)
-                hi_ok = hi_ok or (n_["op"] == "<" and kd <= 2.0 ** 63) or (n_["op"] == "<=" and kd < 2.0 ** 63)
-            if n_["op"] in (">", ">="):
-                lo_txt = f.show(n_)
-                lo_ok = lo_ok or kd >= -(2.0 ** 63)
+    for op_, kd, txt in range_guards(uint[0]):
+        if op_ in ("<", "<="):
+            hi_txt = txt
+            hi_ok = hi_ok or (op_ == "<" and kd <= 2.0 ** 63) or (op_ == "<=" and kd < 2.0 ** 63)
+        else:
+            lo_txt = txt
+            lo_ok = lo_ok or kd >= -(2.0 ** 63)
     R.check(lo_ok and hi_ok, "NARROW", "integer-range-guard", where(f, uint[0]), "the cast to int64 happens only for -2^63 <= value < 2^63 (%s, %s)" % (lo_txt, hi_txt),
-            "the range test before (int64_t)value is `%s` / `%s`; compared as doubles the upper bound is %s, so the value 2^63 itself reaches the conversion, which is undefined for it (it yields INT64_MIN on x86-64 and INT64_MAX where the conversion saturates - there 2^63 is written as the integer 2^63 - 1)" % (lo_txt, hi_txt, "2^63 inclusive" if hi_txt else "missing"))
+            "the range test before (int64_t)value is `%s` / `%s`; compared as doubles the upper bound is %s, so the value 2^63 itself reaches the conversion, which is undefined for it (it yields INT64_MIN on x86-64 and INT64_MAX where the conversion saturates 2^63 is then written as 2^63-1)" % (lo_txt, hi_txt, "2^63 (INT64_MAX rounds up)"))
     # "stored in the smallest form that loses nothing": an integer head is 9 bytes from 2^32 on, a single float 5; the integer
     # form may be chosen ahead of the single form only below 2^32 in magnitude (or after the single form was tried)
-    small = False
-    for c_, pol, b in RU.guards(f, uint[0], dom):
-        n_ = f.d(c_)
-        if pol and n_ is not None and n_["k"] == "bin" and n_["op"] in ("<", "<=") and f.is_const(RU.uncast(f, n_["a"][1])) is not None and float(f.is_const(RU.uncast(f, n_["a"][1]))) <= 2.0 ** 32:
-            small = True
+    small = any(op_ in ("<", "<=") and kd <= 2.0 ** 32 for op_, kd, txt in range_guards(uint[0]))
     later_single = [s for s in single if s.line > uint[0].line]
     after_single = bool(later_single) and all(ev_dominates(f, s, uint[0], dom) for s in later_single)
     R.check(small or after_single, "NARROW", "integer-form-not-larger-than-single", where(f, uint[0]), "the integer form is used ahead of the single form only where its head is not longer",
-            "the integer form is chosen before the single-float form for every exact integer in the int64 range: an integral double of magnitude >= 2^32 that a single float represents exactly (2^32, 2^40, -2^35) is written with a 9-byte integer head instead of the 5-byte single")
-    R.check(argstr(f, neg[0].node, 1).replace(" ", "") in ("(uint64_t)(-1-int_value)", "(unsignedlong)(-1-int_value)", "(-1-int_value)"), "NARROW", "negative-mapping", where(f, neg[0]), "negative n is written as -1-n",
-            "negative integers are written as %s" % argstr(f, neg[0].node, 1))
-    g_neg = guard_txt(neg[0])
-    R.check(any(t == "(int_value<0)" and pol for t, pol in g_neg) and any(t == "(int_value<0)" and not pol for t, pol in g_int), "NARROW", "sign-split", where(f, neg[0]), "negint iff int_value < 0")
-    later = [s for s in single if s.line > uint[0].line]
+            "the integer form is chosen before the single-float form for every exact integer in the int64 range: an integral double of magnitude >= 2^32 that a single float represents exactly (2^32, 2^40, -2^35) is written with a 9-byte integer head instead of the 5-byte single-float form")
+    # sign split and the negative mapping n -> -1-n, decided on the values (NUM): at the negint call the truncated integer is
+    # negative and the argument equals -1 - it (written in any equivalent way); at the uint call it is non-negative and passed as is
+    def trunc_guard(e):
+        for n_, pol in guards_of(e):
+            g_ = RU.cmp_norm(f, n_, pol)
+            if g_ and g_[2] is not None and f.is_const(RU.uncast(f, g_[2])) == 0 and is_trunc(g_[0]):
+                return g_[0], g_[1]
+            if g_ and g_[2] is not None and f.is_const(RU.uncast(f, g_[0])) == 0 and is_trunc(g_[2]):
+                return g_[2], {"<": ">", "<=": ">=", ">": "<", ">=": "<=", "==": "==", "!=": "!="}[g_[1]]
+        return None, None
+    tn, op_n = trunc_guard(neg[0])
+    tu, op_u = trunc_guard(uint[0])
+    R.check(tn is not None and tu is not None and op_n == "<" and op_u == ">=", "NARROW", "sign-split", where(f, neg[0]), "negint iff the truncated integer is < 0",
+            "the sign split is `%s 0` for the negative form and `%s 0` for the unsigned form" % (op_n, op_u))
+    okm, detm = False, "not decided"
+    if tn is not None:
+        num = Num(f, P, C04.ParserHooks(), max_paths=4000)
+        try:
+            sts = num.states_at({neg[0].node["id"], uint[0].node["id"]})
+            okm, nst = True, 0
+            for ev_, sign in ((neg[0], -1), (uint[0], 1)):
+                for st in sts.get(ev_.node["id"], []):
+                    nst += 1
+                    a_ = num.val(RU.arg(f, ev_.node, 1), st)
+                    x_ = num.val(tn if sign < 0 else tu, st)
+                    want = (Poly.const(-1) - x_) if (sign < 0 and x_ is not None) else x_
+                    if a_ is None or x_ is None or not (entails(st, a_ - want) and entails(st, want - a_)):
+                        okm, detm = False, "%s is passed %r for the truncated integer %r" % (ev_.node["callee"], a_, x_)
+            okm = okm and nst >= 2
+        except Limit as ex:
+            R.broken(str(ex))
+    R.check(okm, "NARROW", "negative-mapping", where(f, neg[0]), "negative n is written as -1-n, non-negative n as n (NUM, any equivalent spelling)",
+            "the integer argument is not the CBOR mapping (n for n >= 0, -1-n for n < 0): %s" % detm)
     first = [s for s in single if s.line < uint[0].line]
     ok1 = len(first) == 1 and any("isfinite" in t or "__builtin_isfinite" in t or "isinf" in t for t, pol in guard_txt(first[0]))
     R.check(ok1, "NARROW", "non-finite-to-single", where(f, first[0]) if first else f.name, "NaN / infinities are written as single")
-    if later:
-        g_f = guard_txt(later[0])
-        eq = [t for t, pol in g_f if pol and "converted_value" in t]
-        R.check(eq == ["(value==converted_value)"] or eq == ["(converted_value==value)"], "NARROW", "single-iff-round-trip-equal", where(f, later[0]), "single exactly when (double)(float)value == value",
-                "the float round-trip test is %s, not an exact ==" % [t for t, p in g_f if "converted" in t or "fabs" in t])
-        rngf = " ".join(t for t, pol in g_f)
-        R.check("value<=" in rngf and "value>=" in rngf and ("3.40282" in rngf or "FLT_MAX" in rngf), "NARROW", "single-range-guard", where(f, later[0]), "the cast to float happens only within +-FLT_MAX")
-        decls = {v["n"]: f.show(f.d(v["init"])).replace(" ", "") for e in f.all_events() if e.kind == "decl" for v in e.node["vars"] if v.get("init") is not None}
-        R.check(decls.get("float_value") == "(float)value" and decls.get("converted_value") == "(double)float_value" and decls.get("int_value") in ("(int64_t)value", "(long)value"), "NARROW", "round-trip-operands", "%s()" % f.name,
-                "int_value = (int64_t)value, float_value = (float)value, converted_value = (double)float_value", "round-trip operands are %s" % decls)
-    R.check(all(not ev_dominates(f, x, dbl[0], dom) or True for x in single) and dbl[0].line > max(s.line for s in single), "NARROW", "double-last", where(f, dbl[0]), "the double form is the fall-through")
+    if later_single:
+        ls = later_single[0]
+        R.check(len(eq_guard(ls, widened_back)) == 1, "NARROW", "single-iff-round-trip-equal", where(f, ls), "single exactly when (double)(float)value == value",
+                "the float round-trip test is %s, not an exact == of value with (double)(float)value" % [t for t, p in guard_txt(ls)])
+        rg = range_guards(ls)
+        fl = 3.4028234663852886e+38
+        okr = any(op_ in ("<", "<=") and abs(kd - fl) < 1e30 for op_, kd, t in rg) and any(op_ in (">", ">=") and abs(kd + fl) < 1e30 for op_, kd, t in rg)
+        if not okr:
+            # fabs(value) <= FLT_MAX
+            for n_, pol in guards_of(ls):
+                if pol and n_ is not None and n_["k"] == "bin" and n_["op"] in ("<", "<="):
+                    l_ = RU.uncast(f, n_["a"][0])
+                    kc = constval(n_["a"][1])
+                    if l_ is not None and l_["k"] == "call" and l_.get("callee") in ("fabs", "__builtin_fabs") and is_value(RU.arg(f, l_, 0)) and kc is not None and abs(float(kc) - fl) < 1e30:
+                        okr = True
+        R.check(okr, "NARROW", "single-range-guard", where(f, ls), "the cast to float happens only within +-FLT_MAX")
+        R.check(cast_of_value(RU.arg(f, ls.node, 1), is_flt), "NARROW", "round-trip-operands", where(f, ls), "the single float written is (float)value",
+                "the value written as single float is %s, not (float)value" % argstr(f, ls.node, 1))
+    R.check(dbl[0].line > max(s.line for s in single), "NARROW", "double-last", where(f, dbl[0]), "the double form is the fall-through")
 
 
 def wiring(R, P):
